@@ -23,6 +23,7 @@ import (
 
 func normaliseAST(c *Ctx) int {
 	n := inlineEmbeddedHelpers(c)
+	n += inlineFieldCopies(c)
 	c.NInlined = n
 	for _, p := range c.All {
 		info := p.TypesInfo
